@@ -489,9 +489,10 @@ class IPRoutePrefix(EVPN):
             # ipv6
             offset = 16
 
-        route['prefix'] = '%s/%s' % (str(netaddr.IPAddress(int(binascii.b2a_hex(value[0: offset]), 16))), ip_addr_len)
+        version = 6 if offset == 16 else 4
+        route['prefix'] = '%s/%s' % (str(netaddr.IPAddress(int(binascii.b2a_hex(value[0: offset]), 16), version)), ip_addr_len)
         value = value[offset:]
-        route['gateway'] = str(netaddr.IPAddress(int(binascii.b2a_hex(value[0: offset]), 16)))
+        route['gateway'] = str(netaddr.IPAddress(int(binascii.b2a_hex(value[0: offset]), 16), version))
         value = value[offset:]
 
         route['label'] = cls.parse_mpls_label_stack(value)
